@@ -280,7 +280,6 @@ class Sim:
                 op._drop_threads()
             except Exception:
                 pass
-        logging.disable(logging.NOTSET)
 
     # ---- objects
     def create(self, name: str, spec: dict[str, Any] | None = None, labels: dict[str, str] | None = None,
